@@ -47,11 +47,46 @@ VIDX = {OPTION: {"None": 0, "Some": 1}, RESULT: {"Ok": 0, "Err": 1}}
 NFIELDS = {"None": 0, "Some": 1, "Ok": 1, "Err": 1}
 
 
+def _ctor_table(raw):
+    """def path of every tuple-variant constructor usable as a function value -> (enum path, variant, variant index)"""
+    out = {"std::option::Option::Some": (OPTION, "Some", 1), "std::result::Result::Ok": (RESULT, "Ok", 0), "std::result::Result::Err": (RESULT, "Err", 1)}
+    for a in raw.get("adts", []):
+        if a.get("kind") == "Enum":
+            for i, v in enumerate(a.get("variants", [])):
+                if v.get("fields"):
+                    out[f"{a['path']}::{v['name']}"] = (a["path"], v["name"], i)
+    return out
+
+
+def _rewrite_ctor_calls(raw):
+    """`Enum::Variant(x)` written as a call of the constructor function (as happens when the constructor is used as a
+    function value: `.map_err(Error::Merge)`) is the construction of that variant"""
+    tab = _ctor_table(raw)
+    n = 0
+    for b in raw["bodies"]:
+        for blk in b["blocks"]:
+            t = blk["term"]
+            if t.get("t") != "call" or t.get("target") is None:
+                continue
+            f = t.get("func", {})
+            if not (f.get("k") == "const" and "fn" in f):
+                continue
+            hit = tab.get(f["fn"]["path"])
+            if hit is None:
+                continue
+            enum, variant, vidx = hit
+            blk["stmts"].append({"s": "assign", "pl": t["dest"], "rv": {"rv": "agg", "ak": "adt", "adt": enum, "adt_inst": enum, "variant": variant, "vidx": vidx, "fields": [str(i) for i in range(len(t["args"]))], "ops": t["args"]}, "span": t.get("span")})
+            blk["term"] = {"t": "goto", "target": t["target"], "span": t.get("span")}
+            n += 1
+    return n
+
+
 def desugar(raw, max_rounds=6):
     INLINED_CLOSURES.clear()
     by_path = {}
     for b in raw["bodies"]:
         by_path.setdefault(b["path"], []).append(b)
+    _rewrite_ctor_calls(raw)
     n = 0
     for _ in range(max_rounds):
         changed = False
@@ -86,6 +121,7 @@ def desugar(raw, max_rounds=6):
                     changed = True
         if not changed:
             break
+    n += _rewrite_ctor_calls(raw)
     raw["_inlined_closures"] = sorted(INLINED_CLOSURES)
     return n
 
